@@ -188,6 +188,8 @@ func checkC02(r *Report, p *Program) {
 	r02_3(r, p, roles)
 	r02_4(r, p, roles)
 	ownerRefEdits(r, p, "R02.6")
+	rmwClosuresReadLive(r, p, "R02.7")
+	noNewCrossSyncState(r, p, "R02.8")
 }
 
 func uidSourceOfDelete(s engine.Sink) (obj ssa.Value, why string) {
@@ -226,10 +228,11 @@ func r02_1(r *Report, p *Program, roles *childRoles) {
 	const rule = "R02.1"
 	r.Rule(rule, "every Delete sink passes Preconditions{UID:&u}, u read from the observed object (same map key as name/namespace); DeleteCollection is forbidden")
 	r.Floor(rule, 3)
-	for _, s := range engine.Sinks(p.Scanned) {
+	for _, es := range effectiveSinks(p, engine.Sinks(p.Scanned)) {
+		s := es.Sink
 		in := s.Instr.(ssa.Instruction)
 		if s.Verb == "DeleteCollection" || s.Verb == "DeleteAllOf" {
-			r.Check(rule, s.Construct(), p.InstrPos(in), false, "", "collection delete cannot be UID-preconditioned")
+			r.Check(rule, es.Construct(), p.InstrPos(in), false, "", "collection delete cannot be UID-preconditioned")
 			continue
 		}
 		if s.Verb != "Delete" || s.Iface == "crclient" {
@@ -237,7 +240,7 @@ func r02_1(r *Report, p *Program, roles *childRoles) {
 		}
 		obj, why := uidSourceOfDelete(s)
 		if obj == nil {
-			r.Check(rule, s.Construct(), p.InstrPos(in), false, "", why)
+			r.Check(rule, es.Construct(), p.InstrPos(in), false, "", why)
 			continue
 		}
 		ok := true
@@ -283,11 +286,13 @@ func r02_1(r *Report, p *Program, roles *childRoles) {
 				ok, why = false, "revision delete name and UID come from different objects"
 			}
 		}
-		r.Check(rule, s.Construct(), p.InstrPos(in), ok, checked, why)
+		r.Check(rule, es.Construct(), p.InstrPos(in), ok, checked, why)
 	}
 }
 
-func isMakeControllerRef(k string) bool { return strings.HasSuffix(k, "controller/common.MakeControllerRef") }
+func isMakeControllerRef(k string) bool {
+	return strings.HasSuffix(k, "controller/common.MakeControllerRef")
+}
 
 // ownedBefore: some SetOwnerReferences(obj, refs) with refs depending on
 // MakeControllerRef(parent) dominates `before`.
@@ -297,13 +302,15 @@ func ownedBefore(f *ssa.Function, obj ssa.Value, before ssa.Instruction) (bool, 
 		if !engine.SameValue(cs.Recv(), obj) {
 			continue
 		}
-		if engine.DependsOnCall(cs.Arg(0), isMakeControllerRef, nil) == nil {
+		// on every path into the setter the list contains the parent's controller
+		// reference: a conditional append (phi with a branch that lacks it) does not count
+		if !engine.MustDependOnCall(cs.Arg(0), isMakeControllerRef, nil) {
 			continue
 		}
 		setters = append(setters, cs.Instr.(ssa.Instruction))
 	}
 	if len(setters) == 0 {
-		return false, "no SetOwnerReferences(… MakeControllerRef(parent) …) on the object that is sent"
+		return false, "no SetOwnerReferences(… MakeControllerRef(parent) …) on the object that is sent whose list contains the parent's controller reference on every path (a conditional append does not count)"
 	}
 	w := bypass(f, before, func(in ssa.Instruction) bool {
 		for _, s := range setters {
@@ -414,7 +421,7 @@ func r02_2(r *Report, p *Program) {
 							continue
 						}
 						if strings.HasSuffix(E(st.Addr), ".ObjectMeta.OwnerReferences") && engine.DependsOnValue(st.Addr, a, nil) &&
-							engine.DependsOnCall(st.Val, isMakeControllerRef, nil) != nil {
+							engine.MustDependOnCall(st.Val, isMakeControllerRef, nil) {
 							stores = append(stores, st)
 						}
 					}
@@ -489,7 +496,7 @@ func r02_3(r *Report, p *Program, roles *childRoles) {
 			dc := engine.DependsOnCall(obj, engine.HasSuffix("Unstructured.DeepCopy"), nil)
 			src := dc.Common().Args[0]
 			ok := engine.BackSlice(src, func(x ssa.Value) bool { _, isP := x.(*ssa.Parameter); return isP }, func(k string) bool {
-				return strings.HasSuffix(k, "finalizer.Manager.SyncObject")
+				return strings.HasSuffix(k, "finalizer.Manager.SyncObject") || strings.HasSuffix(k, "Unstructured.DeepCopy")
 			})
 			why := ""
 			if !ok {
